@@ -34,7 +34,55 @@ GRAV = np.array([0.0, 0.0, -9.81])
 
 def cases(tier, seed):
     n = {"quick": 180, "thorough": 4500}[tier]
-    return [{"kind": KINDS[i % len(KINDS)], "variant": i // len(KINDS)} for i in range(n)]
+    return ([{"kind": KINDS[i % len(KINDS)], "variant": i // len(KINDS)} for i in range(n)]
+            + [{"kind": "belt", "variant": i} for i in range({"quick": 12, "thorough": 200}[tier])])
+
+
+def _run_belt(spec, ctx):
+    """block on a belt (the contribution of examples/friction_belt): dry friction with a CONSTANT force reservoir R, no normal
+    contact anywhere. Initial equations: m u_dot = -k q + la_F with la_F = -R sign(gamma_F) while sliding, and |la_F| <= R with
+    u_dot = 0 (gamma_F_dot = 0) or maximal opposing force while sticking."""
+    from cardillo import System
+    from cardillo.solver import SolverOptions
+    from vlib.props.c21 import _BlockOnBelt
+    rng = ctx.rng
+    blk = _BlockOnBelt(rng)
+    mode = ["slip+", "slip-", "stick", "stick_breaks"][spec["variant"] % 4]
+    if mode == "slip+":
+        blk.u0 = np.array([blk.u_b + float(rng.uniform(0.2, 2))])
+    elif mode == "slip-":
+        blk.u0 = np.array([blk.u_b - float(rng.uniform(0.2, 2))])
+    else:
+        blk.u0 = np.array([blk.u_b])
+        blk.q0 = np.array([(0.5 if mode == "stick" else 2.0) * blk.reservoir / blk.k * (1 if rng.random() < 0.5 else -1)])
+    det = {"kind": "belt", "mode": mode, "mass": blk.mass, "k": blk.k, "reservoir": blk.reservoir, "q0": blk.q0, "u0": blk.u0, "belt_speed": blk.u_b}
+    with gen.quiet():
+        S = System(); S.add(blk)
+        ctx.mon("assemble")
+        try:
+            S.assemble(options=SolverOptions())
+        except Exception as e:
+            ctx.violation("System.assemble", "a consistent state of a system with constant-reservoir friction is rejected", {**det, "error": f"{type(e).__name__}: {e}"[:300]})
+            ctx.sig([det], nontrivial=True); return
+    laF, ud = float(S.la_F0[0]), float(S.u_dot0[0])
+    R, spring = blk.reservoir, -blk.k * float(blk.q0[0])
+    ctx.mon("eom"); ctx.mon("coulomb"); ctx.cls(f"belt:{mode}")
+    ex = {**det, "la_F0": laF, "u_dot0": ud}
+    if abs(blk.mass * ud - spring - laF) > 1e-8 * (1 + abs(spring) + R):
+        ctx.violation("consistent_initial_conditions/eom", "returned accelerations and friction force do not satisfy the equations of motion", ex)
+    if mode.startswith("slip"):
+        want = -R if mode == "slip+" else R
+        if abs(laF - want) > 1e-6 * R:
+            ctx.violation("consistent_initial_conditions/coulomb", "sliding contact: friction force is not -R gamma_F/|gamma_F| (constant force reservoir)", {**ex, "reference": want})
+    elif mode == "stick":
+        if abs(ud) > 1e-6 or abs(laF + spring) > 1e-6 * (1 + R) or abs(laF) > R * (1 + 1e-9):
+            ctx.violation("consistent_initial_conditions/coulomb", "sticking contact within the force reservoir: friction force does not balance the applied force", ex)
+    else:
+        want = -np.sign(spring) * R
+        if abs(laF - want) > 1e-6 * R:
+            ctx.violation("consistent_initial_conditions/coulomb", "sticking contact that starts to slide: friction force is not maximal and opposing the slip acceleration", {**ex, "reference": want})
+    ctx.sig([det], nontrivial=True)
+    ctx.sample(det)
 
 
 def _gravity(system, bodies):
@@ -329,6 +377,8 @@ def run_case(spec, ctx):
     env.import_cardillo()
     from cardillo.solver import SolverOptions
     rng = ctx.rng
+    if spec["kind"] == "belt":
+        return _run_belt(spec, ctx)
     kind, _, sub = spec["kind"].partition(":")
     det = {"kind": spec["kind"]}
     with gen.quiet():
